@@ -30,6 +30,12 @@ CHECKS = {
         note="Trusted: Lean kernel; py2lean for Timespan; SQLite executing the SELECT/DELETE/INSERT of certify/decertify atomically; PostgreSQL exclusion-constraint branch not executable here.",
         design="DESIGN.md §5 C04",
     ),
+    "C03": dict(
+        technique="Lean 4 proof (list lemmas on first-occurrence de-duplication and findSome?, rank-based acyclicity, position arithmetic) + history correspondence incl. the SQL position column",
+        text="findFirst_eq (dedup never changes a first match), chain_equiv_children, no_match_irrelevant, prune_sound, minRank_eq_first (rank-based find-first = first match), the four edit theorems (child order and strict position order from min-len / max+1 arithmetic for all integer positions), cycle_refused and acyclic_preserved (an accepted edit keeps a strictly decreasing rank) are proved in Lean 4 for all definitions, paths and contents. The hand model is tied to the code by histories on a real registry comparing collection_chain rows with positions, getCollectionChain, flattening and find-first through five query interfaces (with and without caching context), with a model-free DFS oracle.",
+        note="Trusted: Lean kernel; correspondence harness; SQLite PK enforcement; SQL window-function / legacy relation find-first are tied by correspondence (their rank semantics is the minRank theorem).",
+        design="DESIGN.md §5 C03",
+    ),
 }
 
 NOT_YET = {}
